@@ -158,6 +158,10 @@ fn wall_step_rules(h: &Hist, props: &[&str], o: &mut OracleOut) {
             skew -= ns as i128;
             continue;
         }
+        if let Op::WallStepFwd { ns } = op.op {
+            skew += ns as i128;
+            continue;
+        }
         let wr = op.ret_now as i128 + skew;
         for w in cur.values_mut() {
             w.max_wall = w.max_wall.max(wr);
@@ -232,8 +236,12 @@ fn wall_step_reclaim_rule(h: &Hist, o: &mut OracleOut) {
             skew -= ns as i128;
             steps.push((op.ret_seq.unwrap(), op.ret_now, skew));
         }
+        if let Op::WallStepFwd { ns } = op.op {
+            skew += ns as i128;
+            steps.push((op.ret_seq.unwrap(), op.ret_now, skew));
+        }
     }
-    if h.ops.iter().any(|x| matches!(x.op, Op::WallStepBack { .. }) && !x.returned()) {
+    if h.ops.iter().any(|x| matches!(x.op, Op::WallStepBack { .. } | Op::WallStepFwd { .. }) && !x.returned()) {
         return;
     }
     for cp in h.cps.iter().filter(|c| c.quiescent) {
